@@ -1,4 +1,324 @@
-From Coq Require Import ZArith QArith List Bool.
+(* C08 — usage is conserved when meter data is resampled to days.
+   Statements only; proofs are in Proofs/ResampleProofs.v; the model is Model/Resample.v (exact rationals, time in
+   whole UTC minutes, local-day boundaries as data: a day is a bucket [b_j, b_j+1) of any length, so 23-, 24- and
+   25-hour days are covered by the same theorems).
+   Vocabulary: intervals rs = the constant-rate intervals [t_i, t_i+1) of the readings (the last reading is
+   open-ended and has none); bucket_sum / bucket_count = usage / covered minutes of a bucket; bucket_value = NaN iff
+   no covered minute; clean_day = downsample_and_clean_daily_data's value of a day (1/2 rule, 1/coverage scaling). *)
+From Coq Require Import ZArith QArith List Bool Lia.
 From V Require Import Model.Resample Proofs.ResampleProofs.
-Theorem C08_placeholder : forall a b c d, (0 <= overlap a b c d)%Z.
-Proof. exact overlap_nonneg. Qed.
+Import ListNotations.
+Open Scope Z_scope.
+
+(* ------------------------------------------------------------------------------------------------ *)
+(* A. as_freq: spreading and conservation                                                            *)
+(* ------------------------------------------------------------------------------------------------ *)
+
+(* billing_period_conserved: the local days (c :: mid) that tile a billed period [ilo iv, ihi iv) add up to the
+   billed amount, and each of them is covered completely (so none is missing) *)
+Theorem C08_billing_period_conserved : forall rs iv v c mid,
+  sorted_rs rs -> In iv (intervals rs) -> ival iv = Some v ->
+  incr (c :: mid) -> c = ilo iv -> last mid c = ihi iv ->
+  (sumQ (map (fun p => bucket_sum (fst p) (snd p) (intervals rs)) (pairs (c :: mid))) == v)%Q /\
+  forall p, In p (pairs (c :: mid)) ->
+    bucket_count (fst p) (snd p) (intervals rs) = snd p - fst p /\
+    bucket_value (fst p) (snd p) (intervals rs) = Some (bucket_sum (fst p) (snd p) (intervals rs)).
+Proof. exact period_conserved_l. Qed.
+Print Assumptions C08_billing_period_conserved.
+
+(* a period without usage (NaN reading / blanked by the off-cycle filter): every day inside it is missing *)
+Theorem C08_period_without_usage_is_missing : forall rs iv lo hi,
+  sorted_rs rs -> In iv (intervals rs) -> ival iv = None ->
+  ilo iv <= lo -> lo <= hi -> hi <= ihi iv -> bucket_value lo hi (intervals rs) = None.
+Proof. exact period_missing_l. Qed.
+Print Assumptions C08_period_without_usage_is_missing.
+
+(* nothing_invented: over day boundaries that span the series, the buckets add up to the readings of all closed
+   intervals (every reading but the open-ended last one) ... *)
+Theorem C08_nothing_invented : forall rs c rest, sorted_rs rs -> incr (c :: rest) ->
+  c <= first_stamp rs -> last_stamp rs <= last rest c ->
+  (sumQ (map (fun p => bucket_sum (fst p) (snd p) (intervals rs)) (pairs (c :: rest))) ==
+   sumQ (map (fun r => oq0 (rval r)) (removelast rs)))%Q.
+Proof. exact nothing_invented_l. Qed.
+Print Assumptions C08_nothing_invented.
+
+(* ... and so do the rows as_freq returns (NaN read as 0) *)
+Theorem C08_as_freq_conserves : forall rs c rest, sorted_rs rs -> incr (c :: rest) ->
+  c <= first_stamp rs -> last_stamp rs <= last rest c ->
+  (sumQ (map (fun r => oq0 (d_val r)) (as_freq_cum rs (c :: rest))) ==
+   sumQ (map (fun r => oq0 (rval r)) (removelast rs)))%Q.
+Proof. exact as_freq_conserves_l. Qed.
+Print Assumptions C08_as_freq_conserves.
+
+(* the rows of as_freq are exactly the buckets from the first to the last stamp, each with its bucket value *)
+Theorem C08_as_freq_rows : forall rs bs,
+  map (fun r => (d_lo r, d_hi r, d_val r)) (as_freq_cum rs bs) =
+  map (fun p => (fst p, snd p, bucket_value (fst p) (snd p) (intervals rs))) (filter (relevant rs) (pairs bs)).
+Proof. exact as_freq_cum_spec. Qed.
+Print Assumptions C08_as_freq_rows.
+
+(* minute_grid_eq: the code's literal algorithm (1-minute forward-filled series, resample sum / count) gives the
+   interval formula the other theorems are stated with *)
+Theorem C08_minute_grid_eq : forall rs lo hi, sorted_rs rs -> lo <= hi ->
+  (grid_bucket_sum rs lo hi == bucket_sum lo hi (intervals rs))%Q /\
+  grid_bucket_count rs lo hi = bucket_count lo hi (intervals rs).
+Proof. exact minute_grid_eq_l. Qed.
+Print Assumptions C08_minute_grid_eq.
+
+(* ------------------------------------------------------------------------------------------------ *)
+(* B. days of sub-daily readings (downsample_and_clean_daily_data)                                   *)
+(* ------------------------------------------------------------------------------------------------ *)
+
+(* subdaily_full_day: no reading interval straddles the day's boundaries and the day is covered completely ->
+   the day's value is the sum of the readings in it; the length of the day (hi - lo) is arbitrary *)
+Theorem C08_subdaily_full_day : forall lo hi ivs, lo < hi -> no_straddle lo hi ivs ->
+  bucket_count lo hi ivs = hi - lo ->
+  oq_eq (clean_day lo hi ivs false) (Some (readings_in lo hi ivs)).
+Proof. exact full_day_l. Qed.
+Print Assumptions C08_subdaily_full_day.
+
+(* readings on a regular grid (15/30/60 minutes) whose slots are in phase with the day boundaries never straddle *)
+Theorem C08_regular_series_aligned : forall ivs step t0 lo hi, 0 < step ->
+  (forall iv, In iv ivs -> ihi iv = ilo iv + step /\ (step | ilo iv - t0)) ->
+  (step | lo - t0) -> (step | hi - t0) -> no_straddle lo hi ivs.
+Proof. exact regular_no_straddle. Qed.
+Print Assumptions C08_regular_series_aligned.
+
+(* partial_day: covered for more than half -> covered usage / coverage *)
+Theorem C08_partial_day : forall lo hi ivs, lo < hi -> (1 # 2 < coverage lo hi ivs false)%Q ->
+  oq_eq (clean_day lo hi ivs false) (Some (bucket_sum lo hi ivs / coverage lo hi ivs false)%Q).
+Proof. exact partial_day_l. Qed.
+Print Assumptions C08_partial_day.
+
+(* ... where, for aligned readings, the covered usage is the sum of the readings present in the day *)
+Theorem C08_covered_usage_is_sum_of_readings : forall lo hi ivs, lo <= hi -> no_straddle lo hi ivs ->
+  (bucket_sum lo hi ivs == readings_in lo hi ivs)%Q /\
+  bucket_count lo hi ivs = zsum (map present_len (filter (inside lo hi) ivs)).
+Proof. intros lo hi ivs H1 H2. split; [exact (bucket_sum_inside lo hi ivs H1 H2)|exact (bucket_count_inside lo hi ivs H1 H2)]. Qed.
+Print Assumptions C08_covered_usage_is_sum_of_readings.
+
+(* sparse_day: covered for half or less -> missing (as_freq + the 50 % rule; holds for the function itself) *)
+Theorem C08_sparse_day : forall lo hi ivs, (coverage lo hi ivs false <= 1 # 2)%Q -> clean_day lo hi ivs false = None.
+Proof. exact sparse_day_l. Qed.
+Print Assumptions C08_sparse_day.
+
+(* ------------------------------------------------------------------------------------------------ *)
+(* C. clean_billing_data                                                                             *)
+(* ------------------------------------------------------------------------------------------------ *)
+
+(* offcycle_dropped: what still carries usage after cleaning is a period of 25..35 (monthly) / 25..70 (bi-monthly)
+   whole days with the billed amount of the input ...
+   (whole_days cal offs: cal = false counts whole ELAPSED days, as the code does; cal = true counts them on the local
+   wall clock - the repair of proposed-fixes/C08-1.diff; the theorems hold for both, the check finds out which of the
+   two the code follows) *)
+Theorem C08_offcycle_dropped : forall cal offs g rs iv v, In iv (intervals (clean_billing cal offs g rs)) -> ival iv = Some v ->
+  25 <= whole_days cal offs (ilo iv) (ihi iv) <= max_days g /\ In (mkI (ilo iv) (ihi iv) (Some v)) (intervals rs).
+Proof. exact offcycle_dropped_l. Qed.
+Print Assumptions C08_offcycle_dropped.
+
+(* ... every period of valid length keeps its billed amount ... *)
+Theorem C08_valid_period_kept : forall cal offs g rs lo hi v, In (mkI lo hi (Some v)) (intervals rs) ->
+  25 <= whole_days cal offs lo hi <= max_days g -> In (mkI lo hi (Some v)) (intervals (clean_billing cal offs g rs)).
+Proof. exact valid_period_kept_l. Qed.
+Print Assumptions C08_valid_period_kept.
+
+(* ... and an off-cycle period stays in the series as an interval without usage (its days are then missing by
+   C08_period_without_usage_is_missing) *)
+Theorem C08_offcycle_period_blank : forall cal offs g rs iv, In iv (intervals rs) ->
+  ~ (25 <= whole_days cal offs (ilo iv) (ihi iv) <= max_days g) -> clean_billing cal offs g rs <> [] ->
+  In (mkI (ilo iv) (ihi iv) None) (intervals (clean_billing cal offs g rs)).
+Proof. exact offcycle_period_blank_l. Qed.
+Print Assumptions C08_offcycle_period_blank.
+
+(* ------------------------------------------------------------------------------------------------ *)
+(* D. the data classes, end to end                                                                   *)
+(* ------------------------------------------------------------------------------------------------ *)
+
+(* the billing class is: drop the rows without value, append the closing row (end of the last day + 24 h), clean,
+   spread, drop the closing row's bucket, look every local day up *)
+Theorem C08_billing_class_spec : forall cal offs elec inf rows bs rs g cl,
+  rs = dropna (zero_to_nan elec rows) -> rs <> [] ->
+  granularity inf (map stamp rs) BillingBimonthly = Some g -> is_billing g = true ->
+  cl = clean_billing cal offs g (rs ++ [(billing_closing bs rows, None)]) -> cl <> [] ->
+  billing_class cal offs elec inf rows bs = Days (map (billing_days cl bs) (pairs bs)).
+Proof. exact billing_class_spec_l. Qed.
+Print Assumptions C08_billing_class_spec.
+
+(* billing_period_conserved for the class: a period that carries usage after cleaning, with both ends on local
+   midnights (c :: mid tiles it, and is a stretch of the day list bs): all its days are present in df['observed']
+   and they add up to the billed amount *)
+Theorem C08_billing_class_period_conserved : forall cl bs iv v pre c mid post,
+  sorted_rs cl -> In iv (intervals cl) -> ival iv = Some v ->
+  bs = pre ++ (c :: mid) ++ post -> incr bs -> c = ilo iv -> last mid c = ihi iv ->
+  (exists q, In q (pairs bs) /\ fst q <= last_stamp cl < snd q) ->
+  (forall p, In p (pairs (c :: mid)) ->
+     In p (pairs bs) /\ billing_days cl bs p = Some (bucket_sum (fst p) (snd p) (intervals cl))) /\
+  (sumQ (map (fun p => oq0 (billing_days cl bs p)) (pairs (c :: mid))) == v)%Q.
+Proof. exact billing_class_period_l. Qed.
+Print Assumptions C08_billing_class_period_conserved.
+
+(* offcycle_dropped for the class: the days inside an off-cycle (blanked) period are missing *)
+Theorem C08_billing_class_blank_days_missing : forall cl bs iv p,
+  sorted_rs cl -> In iv (intervals cl) -> ival iv = None -> incr bs -> In p (pairs bs) ->
+  ilo iv <= fst p -> snd p <= ihi iv ->
+  (exists q, In q (pairs bs) /\ fst q <= last_stamp cl < snd q /\ p <> q) ->
+  billing_days cl bs p = None.
+Proof. exact billing_class_blank_l. Qed.
+Print Assumptions C08_billing_class_blank_days_missing.
+
+(* the daily class on sub-daily data is downsample_and_clean of what is LEFT AFTER dropna() (and, for electricity,
+   after zero readings were made NaN) ... *)
+Theorem C08_daily_class_is_downsample_of_dropna : forall elec inf rows bs rs,
+  rs = dropna (zero_to_nan elec rows) -> rs <> [] ->
+  granularity inf (map stamp rs) Daily = Some Hourly ->
+  daily_class elec inf rows bs =
+  Days (map (fun b => lookup_day (downsample_and_clean rs bs) (fst b)) (pairs bs)).
+Proof. exact daily_class_hourly_l. Qed.
+Print Assumptions C08_daily_class_is_downsample_of_dropna.
+
+(* ... whose entry for every day but the last one pandas creates is clean_day over those remaining readings *)
+Theorem C08_daily_class_day : forall rs bs p q, incr bs ->
+  In p (pairs bs) -> relevant rs p = true -> In q (pairs bs) -> relevant rs q = true -> fst p < fst q ->
+  lookup_day (downsample_and_clean rs bs) (fst p) = clean_day (fst p) (snd p) (intervals rs) false.
+Proof. exact daily_class_day_l. Qed.
+Print Assumptions C08_daily_class_day.
+
+(* ------------------------------------------------------------------------------------------------ *)
+(* E. the statement for the daily class: proved under the guard "no reading is missing", refuted without it *)
+(* ------------------------------------------------------------------------------------------------ *)
+
+(* an instance of the property text: a local day that holds rows, all of them NaN, is missing in df['observed'] *)
+Definition C08_daily_class_statement : Prop :=
+  forall elec inf rows bs vals j lo hi,
+    daily_class elec inf rows bs = Days vals -> nth_error (pairs bs) j = Some (lo, hi) ->
+    (exists r, In r rows /\ lo <= stamp r < hi) ->
+    (forall r, In r rows -> lo <= stamp r < hi -> rval r = None) ->
+    nth_error vals j = Some None.
+
+(* guard: dropna / zero->NaN remove nothing (no reading is missing), regular aligned slots, p is not the final day:
+   sparse -> missing, more than half -> readings / coverage, full -> the sum of the day's readings *)
+Theorem C08_daily_class_statement_partial : forall elec inf rows bs step t0 p q,
+  dropna (zero_to_nan elec rows) = rows -> rows <> [] ->
+  granularity inf (map stamp rows) Daily = Some Hourly ->
+  incr bs -> In p (pairs bs) -> relevant rows p = true ->
+  In q (pairs bs) -> relevant rows q = true -> fst p < fst q ->
+  0 < step -> (forall iv, In iv (intervals rows) -> ihi iv = ilo iv + step /\ (step | ilo iv - t0)) ->
+  (step | fst p - t0) -> (step | snd p - t0) ->
+  let entry := fun b : Z * Z => lookup_day (downsample_and_clean rows bs) (fst b) in
+  let ivs := intervals rows in
+  let c := coverage (fst p) (snd p) ivs false in
+  daily_class elec inf rows bs = Days (map entry (pairs bs)) /\
+  ((c <= 1 # 2)%Q -> entry p = None) /\
+  ((1 # 2 < c)%Q -> oq_eq (entry p) (Some (readings_in (fst p) (snd p) ivs / c)%Q)) /\
+  (bucket_count (fst p) (snd p) ivs = snd p - fst p -> oq_eq (entry p) (Some (readings_in (fst p) (snd p) ivs))).
+Proof. exact daily_class_statement_partial_l. Qed.
+Print Assumptions C08_daily_class_statement_partial.
+
+(* the witness (replayed on the implementation by harness/c08.py, replay_refuted): hourly readings of 2 on
+   2024-01-01 (UTC), 24 NaN hours on 2024-01-02, readings of 2 again until 2024-01-04 00:00.  The NaN rows are
+   dropped, the 23:00 reading of the first day is spread over the 25 hours up to 2024-01-03 00:00, and the day without
+   a single reading comes back as 24/25 * 2 = 1.92 with coverage 1 instead of missing (and the first day, although
+   complete, as 46.08 instead of 48). *)
+Definition wit_t0 : Z := 28401120.
+Definition wit_rows : list reading :=
+  map (fun k => (wit_t0 + 60 * Z.of_nat k,
+                 if (24 <=? Z.of_nat k) && (Z.of_nat k <? 48) then None else Some 2%Q)) (seq 0 73).
+Definition wit_bs : list Z := map (fun k => wit_t0 + 1440 * Z.of_nat k) (seq 0 5).
+Definition wit_vals : list (option Q) :=
+  match daily_class false NoFreq wit_rows wit_bs with Days v => v | _ => [] end.
+
+Theorem C08_sparse_day_class_refuted : ~ C08_daily_class_statement.
+Proof.
+  intro H.
+  specialize (H false NoFreq wit_rows wit_bs wit_vals 1%nat (wit_t0 + 1440) (wit_t0 + 2880)).
+  assert (nth_error wit_vals 1 = Some None) as E.
+  { apply H.
+    - vm_compute. reflexivity.
+    - vm_compute. reflexivity.
+    - exists (wit_t0 + 1440, None). split; [|unfold stamp, wit_t0; cbn [fst]; lia].
+      unfold wit_rows. apply in_map_iff. exists 24%nat. split; [vm_compute; reflexivity|apply in_seq; lia].
+    - assert (forallb (fun r => negb ((wit_t0 + 1440 <=? stamp r) && (stamp r <? wit_t0 + 2880)) || negb (is_some (rval r)))
+                      wit_rows = true) as Hall by (vm_compute; reflexivity).
+      rewrite forallb_forall in Hall. intros r Hr [H1 H2]. specialize (Hall r Hr).
+      apply Z.leb_le in H1. apply Z.ltb_lt in H2. rewrite H1, H2 in Hall. cbn in Hall.
+      destruct (rval r); [discriminate|reflexivity]. }
+  vm_compute in E. discriminate E.
+Qed.
+Print Assumptions C08_sparse_day_class_refuted.
+
+(* what the class reports for the witness: days 2024-01-01 .. 2024-01-04 *)
+Example C08_witness_values :
+  map (option_map Qred) wit_vals = [Some (1152 # 25)%Q; Some (48 # 25)%Q; Some 48%Q; None].
+Proof. vm_compute. reflexivity. Qed.
+
+(* ------------------------------------------------------------------------------------------------ *)
+(* F. non-vacuity: concrete states on which the hypotheses above are met                             *)
+(* ------------------------------------------------------------------------------------------------ *)
+
+(* three billing periods over local days of 1440 / 1380 / 1440 ... minutes (a spring-forward day inside period 0) *)
+Definition ex_days : list Z := [0; 1440; 2820; 4260; 5700; 7140; 8580; 10020].
+Definition ex_bill : list reading := [(0, Some 6%Q); (4260, Some 9%Q); (8580, None)].
+Definition ex_iv : interval := mkI 0 4260 (Some 6%Q).
+
+Example C08_nonvacuous_period :
+  sorted_rs ex_bill /\ In ex_iv (intervals ex_bill) /\ ival ex_iv = Some 6%Q /\
+  incr [0; 1440; 2820; 4260] /\ last [1440; 2820; 4260] 0 = ihi ex_iv /\
+  map (fun p => bucket_sum (fst p) (snd p) (intervals ex_bill)) (pairs [0; 1440; 2820; 4260]) =
+    [(144 # 71)%Q; (138 # 71)%Q; (144 # 71)%Q] /\
+  (sumQ [(144 # 71)%Q; (138 # 71)%Q; (144 # 71)%Q] == 6)%Q.
+Proof.
+  repeat split; try (vm_compute; reflexivity); try (cbn; lia); try (left; reflexivity).
+Qed.
+
+Example C08_nonvacuous_nothing_invented :
+  sorted_rs ex_bill /\ incr ex_days /\ 0 <= first_stamp ex_bill /\ last_stamp ex_bill <= last (tl ex_days) 0 /\
+  map (fun r => d_val r) (as_freq_cum ex_bill ex_days) =
+    [Some (144 # 71)%Q; Some (138 # 71)%Q; Some (144 # 71)%Q; Some 3%Q; Some 3%Q; Some 3%Q; None].
+Proof. repeat split; try (vm_compute; reflexivity); cbn; lia. Qed.
+
+(* hourly readings over a 23-hour day [0, 1380): full, partial (18 of 23 hours) and sparse (11 of 23) *)
+Definition ex_hours (present : nat) : list interval :=
+  map (fun k => mkI (60 * Z.of_nat k) (60 * Z.of_nat k + 60) (if (k <? present)%nat then Some 2%Q else None)) (seq 0 23).
+
+Example C08_nonvacuous_full_day :
+  bucket_count 0 1380 (ex_hours 23) = 1380 - 0 /\ option_map Qred (clean_day 0 1380 (ex_hours 23) false) = Some 46%Q /\
+  (forall iv, In iv (ex_hours 23) -> ihi iv = ilo iv + 60 /\ (60 | ilo iv - 0)).
+Proof.
+  split; [vm_compute; reflexivity|]. split; [vm_compute; reflexivity|].
+  intros iv Hiv. unfold ex_hours in Hiv. apply in_map_iff in Hiv. destruct Hiv as (k & <- & _). cbn [ilo ihi].
+  split; [reflexivity|]. exists (Z.of_nat k). lia.
+Qed.
+
+Example C08_nonvacuous_partial_and_sparse :
+  (1 # 2 < coverage 0 1380 (ex_hours 18) false)%Q /\
+  oq_eq (clean_day 0 1380 (ex_hours 18) false) (Some (36 / (18 # 23))%Q) /\
+  (coverage 0 1380 (ex_hours 11) false <= 1 # 2)%Q /\ clean_day 0 1380 (ex_hours 11) false = None.
+Proof. repeat split; vm_compute; try reflexivity; discriminate. Qed.
+
+(* clean_billing_data: a 24-day and a 36-day period next to a 30-day one, monthly meter *)
+Definition ex_cycle : list reading :=
+  [(0, Some 5%Q); (24 * 1440, Some 7%Q); (54 * 1440, Some 8%Q); (90 * 1440, None)].
+Example C08_nonvacuous_offcycle :
+  clean_billing false [] BillingMonthly ex_cycle =
+    [(0, None); (24 * 1440, Some 7%Q); (54 * 1440, None); (90 * 1440, None)] /\
+  clean_billing false [] BillingBimonthly ex_cycle =
+    [(0, None); (24 * 1440, Some 7%Q); (54 * 1440, Some 8%Q); (90 * 1440, None)].
+Proof. split; vm_compute; reflexivity. Qed.
+
+(* a period of 25 calendar days across a spring-forward day (US/Pacific 2024-03-01 .. 2024-03-26; offsets -480 / -420):
+   24 whole elapsed days - dropped by the code as it is (finding C08-F3), 25 on the wall clock - kept by the repair *)
+Definition ex_spring : list reading := [(28488000, Some 250%Q); (28523940, Some 300%Q); (28567140, None)].
+Definition ex_offs : list (Z * Z) := [(28488000, -480); (28523940, -420); (28567140, -420)].
+Example C08_nonvacuous_day_count :
+  whole_days false ex_offs 28488000 28523940 = 24 /\ whole_days true ex_offs 28488000 28523940 = 25 /\
+  clean_billing false ex_offs BillingMonthly ex_spring = [(28488000, None); (28523940, Some 300%Q); (28567140, None)] /\
+  clean_billing true ex_offs BillingMonthly ex_spring = [(28488000, Some 250%Q); (28523940, Some 300%Q); (28567140, None)].
+Proof. repeat split; vm_compute; reflexivity. Qed.
+
+(* the literal 1-minute materialisation on the 23-hour day of the three-period series *)
+Example C08_nonvacuous_minute_grid :
+  sorted_rs ex_bill /\ (grid_bucket_sum ex_bill 1440 2820 == bucket_sum 1440 2820 (intervals ex_bill))%Q /\
+  grid_bucket_count ex_bill 1440 2820 = 1380.
+Proof.
+  split; [cbn; lia|]. split; [vm_compute; reflexivity|vm_compute; reflexivity].
+Qed.
